@@ -16,18 +16,25 @@ UrlKinds == {"string", "int32", "int64", "uint32", "uint64", "sint32", "sfixed64
 Classes == {"ord", "zero", "min", "max", "big53", "nonascii", "urlreserved"}
 BodyShapes == {"string", "int64", "msg", "rep", "map", "opt", "enum", "bytes", "double", "oneof", "ts"}
 Ctypes == {"json", "proto", "octet"}
-Cases == {[verb |-> v, kind |-> k, pcls |-> pc, qcls |-> qc, bshape |-> bs, bcls |-> bc, ctype |-> ct, handler |-> h] :
+\* route: "explicit" = the RPC has an http config with a path template /s<i>/{p}; "default" = no http
+\* config at all (route derived from package and method name, verb POST, no URL-bound fields)
+Routes == {"explicit", "default"}
+Cases == {[verb |-> v, kind |-> k, pcls |-> pc, qcls |-> qc, bshape |-> bs, bcls |-> bc, ctype |-> ct, handler |-> h, route |-> "explicit"] :
             v \in Verbs, k \in UrlKinds, pc \in Classes \ {"zero"}, qc \in {"ord", "zero", "max", "urlreserved"},
             bs \in BodyShapes, bc \in {"ord", "zero", "max"}, ct \in Ctypes, h \in {"ok"}}
+DefaultCases == {[verb |-> "POST", kind |-> "string", pcls |-> "ord", qcls |-> "ord", bshape |-> bs, bcls |-> bc, ctype |-> ct, handler |-> "ok", route |-> "default"] :
+                   bs \in BodyShapes, bc \in {"ord", "zero", "max"}, ct \in Ctypes}
 \* pruning: vary one dimension at a time around a base point (the full product is 1.4 M cases)
 Base(c) == [c EXCEPT !.pcls = "ord", !.qcls = "ord", !.bshape = "string", !.bcls = "ord", !.ctype = "json"]
 Near(c) == Cardinality({d \in {"pcls", "qcls", "bshape", "bcls", "ctype"} : c[d] # Base(c)[d]}) <= 1
            \/ (c.ctype # "json" /\ c.bshape # "string" /\ c.pcls = "ord" /\ c.qcls = "ord" /\ c.bcls = "ord")
 Family == {c \in Cases : Near(c) /\ (~BodyVerb(c.verb) => (c.bshape = "string" /\ c.bcls = "ord" /\ c.ctype = "json"))}
+          \cup {c \in DefaultCases : c.bcls = "ord" \/ c.ctype = "json"}
 
-Fields(c) == IF BodyVerb(c.verb) THEN <<"p", "q", "rq", "b">> ELSE <<"p", "q", "rq">>
-RpcOf(c) == [name |-> "M", verb |-> c.verb, fields |-> Fields(c), pathVars |-> <<"p">>,
-             query |-> <<[field |-> "q", name |-> "q", required |-> FALSE], [field |-> "rq", name |-> "rq", required |-> TRUE]>>]
+Fields(c) == IF c.route = "default" THEN <<"b">> ELSE IF BodyVerb(c.verb) THEN <<"p", "q", "rq", "b">> ELSE <<"p", "q", "rq">>
+RpcOf(c) == [name |-> "M", verb |-> c.verb, fields |-> Fields(c), pathVars |-> IF c.route = "default" THEN <<>> ELSE <<"p">>,
+             query |-> IF c.route = "default" THEN <<>>
+                       ELSE <<[field |-> "q", name |-> "q", required |-> FALSE], [field |-> "rq", name |-> "rq", required |-> TRUE]>>]
 ValOf(c) == [i \in DOMAIN Fields(c) |-> [k |-> Fields(c)[i], v |-> "V_" \o Fields(c)[i]]]
 CallOf(c) == [rpc |-> RpcOf(c), value |-> ValOf(c), zero |-> [i \in DOMAIN Fields(c) |-> [k |-> Fields(c)[i], v |-> "Z_" \o Fields(c)[i]]],
               ctype |-> c.ctype, resp |-> "RESP", handler |-> c.handler]
